@@ -21,8 +21,16 @@ What is NOT modelled: the search itself (HC4/BT4, fast/normal parser).  It is an
 constraint is the bound `maxAhead` on how far the match finder may run ahead of the symbol start inside one
 `encode_symbol` call (fast: `MATCH_LEN_MAX - 1`, normal: `OPTS - 2`; see `Mode.maxAhead`).
 
-Not modelled either: preset dictionaries, `LZMA2Writer::flush` inside a run (`setFlushing` is defined and
-its invariants are proved, but `writeAll` never calls it), `LZMA2Options::chunk_size`.
+`LZMA2Writer::flush` inside a run: `flush`, `Ev`, `runEv` (`write` / `flush` in any order, then `finish`).  A flush changes
+what the search is shown (bytes stay pending and are shown again later), so the view-independence theorems speak
+about runs without flush (`run`); for runs WITH flush calls `Proofs/EncWindowFlush.lean` proves the memory-safety
+side: the match finder is never run at a position with less history in the buffer than it may look back (ghost flag
+`St.low`), across window moves with pending bytes (`moveOffset` is the statement after the repair `fix: move_window
+keeps the history of the pending bytes`, `moveOffsetPinned` the one before, selected by `Params.pinnedMove` for the
+witness).  The script machine at the end of the file (`scriptRun`) is what the driver runs against the real
+`LZEncoder` (hook `lz_window_script`).
+
+Not modelled either: preset dictionaries, `LZMA2Options::chunk_size`.
 -/
 namespace LzmaVerif.EncWindow
 
